@@ -599,6 +599,140 @@ pub fn record_aging(args: &Args) {
     sum.write(args.opt("summary").unwrap_or("/dev/stdout"));
 }
 
+/// C38 with slow sync in force (pruning window shorter than the sampling window): below the pruning window the
+/// syncer only fetches while at most max(batch/2, 50) stored headers wait for the sampler.  The harness plays an
+/// honest network and the sampler: whenever the worker is idle it marks some unsampled headers sampled and lets a
+/// new head arrive (the re-check trigger).  At the end -- every stored header sampled, several heads later -- the
+/// whole sampling window up to the head must be stored.
+pub fn record_slow(args: &Args) {
+    let seed = args.opt_u64("seed", 1);
+    let runs = args.opt_u64("runs", 2);
+    let n = args.opt_u64("n", 170);
+    let batch = args.opt_u64("batch", 16);
+    let k = args.opt_u64("wsamp", 130);
+    let kp = args.opt_u64("wprune", 40);
+    let mut tw = TraceWriter::create(args.opt("out").expect("--out"));
+    let mut sum = Summary::new("syncer-slow");
+    let mut rng = StdRng::seed_from_u64(seed ^ 0x510);
+    h_common::QUIET_ALL.store(true, std::sync::atomic::Ordering::Relaxed);
+    let rt = tokio::runtime::Builder::new_current_thread().enable_all().start_paused(true).build().unwrap();
+    rt.block_on(async {
+        for run in 0..runs {
+            let now = Time::now();
+            let base = (now - Duration::from_secs(n * DELTA)).unwrap();
+            let (a, f) = two_chains(n, base, false);
+            let world = World { a, f, store: Arc::new(RecStore::new(InMemoryStore::new(), Arc::new(|_| {}))) };
+            let wsamp = Duration::from_secs((k - 1) * DELTA + DELTA / 2);
+            let wprune = Duration::from_secs((kp - 1) * DELTA + DELTA / 2);
+            let mut net_head = n - rng.gen_range(15..25);
+            tw.emit(json!({"name": "reset", "run": run, "now": n}));
+            tw.emit(json!({"name": "prefill", "netHead": net_head, "st": world.snapshot(None).await}));
+            let (p2p, mut handle) = w::mocked_p2p();
+            let events = Events::new();
+            let mut sub = events.subscribe();
+            let syncer = VSyncer::start(&p2p, world.store.clone(), &events, batch, wsamp, wprune).unwrap();
+            handle.announce_trusted_peer_connected();
+            settle().await;
+            tw.emit(json!({"name": "connect", "st": world.snapshot(Some(&syncer)).await}));
+            let mut pending: VecDeque<(u64, u64, Responder)> = VecDeque::new();
+            let (mut cur_batch, mut cur_kind, mut failed_seen, mut n_fetch, mut fatal, mut inflight) = (None, Kind::Ok, false, 0u64, false, false);
+            let (mut idle, mut has_sub, mut n_mark, mut cycles, mut held) = (0u32, false, 0u64, 0u64, 0u64);
+            let mut calm_cycles = 0;
+            for _step in 0..20000 {
+                tokio::time::sleep(Duration::from_millis(300)).await;
+                let before = n_fetch;
+                drain_events(&mut sub, &world, &syncer, &mut tw, &mut cur_batch, &mut cur_kind, &mut failed_seen,
+                             &mut n_fetch, &mut fatal, &mut rng, false, "slow", &mut inflight).await;
+                if fatal {
+                    break;
+                }
+                let mut got = n_fetch > before;
+                while let Some(cmd) = w::try_recv_cmd(&mut handle) {
+                    got = true;
+                    match cmd {
+                        MockCmd::HeaderEx { request, respond_to } => {
+                            use celestia_proto::p2p::pb::header_request::Data;
+                            match request.data {
+                                Some(Data::Origin(0)) => {
+                                    let _ = respond_to.send(Ok(vec![world.a(net_head)]));
+                                }
+                                Some(Data::Origin(h)) => pending.push_back((h, request.amount, respond_to)),
+                                _ => {}
+                            }
+                        }
+                        MockCmd::InitHeaderSub { .. } => has_sub = true,
+                        _ => {}
+                    }
+                }
+                if let Some((h, amt, tx)) = pending.pop_front() {
+                    let top = (h + amt - 1).min(n);
+                    let _ = tx.send(Ok((h..=top).map(|x| world.a(x)).collect()));
+                    idle = 0;
+                    continue;
+                }
+                if got || cur_batch.is_some() {
+                    idle = 0;
+                    continue;
+                }
+                idle += 1;
+                if idle < 4 || !has_sub {
+                    continue;
+                }
+                // the worker is idle: the sampler works, then a new head arrives
+                idle = 0;
+                cycles += 1;
+                let stored = world.store.inner.get_stored_header_ranges().await.unwrap();
+                let sampled = world.store.inner.get_sampled_ranges().await.unwrap();
+                let mut uns: Vec<u64> = stored.as_ref().iter().flat_map(|r| r.clone()).filter(|h| !sampled.contains(*h)).collect();
+                uns.reverse();
+                let lowest_wanted = n - k + 1;
+                let complete = (lowest_wanted..=net_head).all(|h| stored.contains(h));
+                // the worker is idle although the window is not complete: something holds it back
+                if !complete {
+                    held += 1;
+                }
+                if uns.is_empty() && (complete || net_head >= n) {
+                    calm_cycles += 1;
+                    if calm_cycles >= 2 {
+                        break;
+                    }
+                }
+                let m = rng.gen_range(5..40).min(uns.len());
+                for h in &uns[..m] {
+                    world.store.inner.mark_as_sampled(*h).await.unwrap();
+                    n_mark += 1;
+                    tw.emit(json!({"name": "mark", "h": h, "st": world.snapshot(Some(&syncer)).await}));
+                }
+                if net_head < n {
+                    net_head += 1;
+                    tw.emit(json!({"name": "newblock", "netHead": net_head}));
+                    handle.announce_new_head(world.a(net_head));
+                    settle().await;
+                    tw.emit(json!({"name": "headsub", "h": net_head, "st": world.snapshot(Some(&syncer)).await}));
+                }
+            }
+            settle().await;
+            drain_events(&mut sub, &world, &syncer, &mut tw, &mut cur_batch, &mut cur_kind, &mut failed_seen,
+                         &mut n_fetch, &mut fatal, &mut rng, false, "slow", &mut inflight).await;
+            // the obligations of the environment are met (honest answers, everything stored is sampled, heads kept
+            // coming): the window must be there
+            let stored = world.store.inner.get_stored_header_ranges().await.unwrap();
+            let sampled = world.store.inner.get_sampled_ranges().await.unwrap();
+            let all_sampled = stored.as_ref().iter().flat_map(|r| r.clone()).all(|h| sampled.contains(h));
+            tw.emit(json!({"name": "quiescent", "check_live": (all_sampled && !fatal) as u8, "st": world.snapshot(Some(&syncer)).await}));
+            syncer.stop();
+            syncer.join().await;
+            let nontrivial = held >= 1 && n_fetch >= 5;
+            sum.case("C38", if nontrivial { Some(format!("slow/{run}")) } else { None },
+                     || json!({"mode": "slow-sync", "n": n, "batch": batch, "wsamp": k, "wprune": kp, "fetches": n_fetch, "marks": n_mark,
+                               "sampler_cycles": cycles, "cycles_with_the_syncer_held_back": held}));
+        }
+    });
+    let nev = tw.finish();
+    sum.set("events", json!(nev));
+    sum.write(args.opt("summary").unwrap_or("/dev/stdout"));
+}
+
 /// spec -> impl: environment schedules generated by TLC (Gen_Syncer, simulation of Syncer.tla) are
 /// performed on the real Syncer; what happens is recorded for Trace_Syncer like in `record`.
 /// The honest chain and a foreign chain of the same heights and times.  The foreign chain is either signed by
